@@ -9,6 +9,9 @@ use std::time::{Duration, Instant};
 use std::convert::{From, TryInto};
 use http::header::{HeaderMap, HeaderName, HeaderValue, IntoHeaderName, CONTENT_LENGTH, TRANSFER_ENCODING, CONTENT_ENCODING, CONTENT_TYPE};
 use http::{Method, StatusCode, Version};
+#[allow(unused_imports)] use http::header::*;   // every header-name constant the repo may mention
+#[allow(unused_imports)] use std::io::{Seek, SeekFrom};
+#[allow(unused_imports)] use std::borrow::Cow;
 use url::Url;
 use encoding_rs::Encoding;
 use flate2::bufread::{DeflateDecoder, GzDecoder};
